@@ -889,7 +889,7 @@ func (fi *FnInfo) classify(r *ssa.Return, st state, mode Mode) (int, *ssa.Call, 
 			if st.m&(1<<uint(ci)) != 0 {
 				return clFail, nil, Mode{}, ""
 			}
-			if tail := fi.cellTail(ci); tail != nil {
+			if tail := fi.cellTailAt(ci, atBlock); tail != nil {
 				return clMaybe, tail, Mode{Kind: mErr}, ""
 			}
 			return clSuccess, nil, Mode{}, ""
@@ -929,7 +929,7 @@ func (fi *FnInfo) classify(r *ssa.Return, st state, mode Mode) (int, *ssa.Call, 
 			if st.m&(1<<uint(ci)) != 0 {
 				return clFail, nil, Mode{}, ""
 			}
-			if tail := fi.cellTail(ci); tail != nil {
+			if tail := fi.cellTailAt(ci, atBlock); tail != nil {
 				return clMaybe, tail, Mode{Kind: mErr}, ""
 			}
 			if _, isAlloc := v.(*ssa.Alloc); isAlloc {
@@ -969,6 +969,54 @@ func (fi *FnInfo) cellTail(ci int) *ssa.Call {
 		return nil
 	}
 	return callOf(only.Val)
+}
+
+// cellTailAt: the stores to the cell that reach the end of block b (no later store to the cell on the way).
+// If exactly one store reaches on every path and it stores the error result of a call, that call is
+// returned: at this exit the cell is nil iff the call succeeded. (With a single store in the function
+// this is cellTail; with several, e.g. one object filled in on alternative branches, it is decided per exit.)
+func (fi *FnInfo) cellTailAt(ci int, b *ssa.BasicBlock) *ssa.Call {
+	if t := fi.cellTail(ci); t != nil {
+		return t
+	}
+	lastStore := func(q *ssa.BasicBlock) *ssa.Store {
+		var last *ssa.Store
+		for _, in := range q.Instrs {
+			if st, ok := in.(*ssa.Store); ok && fi.cellOfAddr(st.Addr) == ci {
+				last = st
+			}
+		}
+		return last
+	}
+	reaching := map[*ssa.Store]bool{}
+	unset := false
+	seen := map[*ssa.BasicBlock]bool{}
+	var walk func(q *ssa.BasicBlock)
+	walk = func(q *ssa.BasicBlock) {
+		if seen[q] {
+			return
+		}
+		seen[q] = true
+		if st := lastStore(q); st != nil {
+			reaching[st] = true
+			return
+		}
+		if len(q.Preds) == 0 {
+			unset = true
+			return
+		}
+		for _, p := range q.Preds {
+			walk(p)
+		}
+	}
+	walk(b)
+	if unset || len(reaching) != 1 {
+		return nil
+	}
+	for st := range reaching {
+		return callOf(st.Val)
+	}
+	return nil
 }
 
 // callOf: v is (an extracted result of) a call.
